@@ -1,11 +1,10 @@
 #!/bin/bash
 # usage: tools/run_all.sh [quick|thorough] [ids...]   -- run checks sequentially, print a summary table
-tier=${1:-quick}; shift
-ids=${@:-$(python3 -c "import json;print(' '.join(c['property_id'] for c in json.load(open('/verif/MANIFEST.json'))['checks']))")}
-cd /verif
+tier=${1:-quick}; shift; cd "$(dirname "$0")/.."
+ids=${@:-$(python3 -c "import json;print(' '.join(c['property_id'] for c in json.load(open('MANIFEST.json'))['checks']))")}
 for id in $ids; do
   s=$(date +%s)
-  ./check $id --tier $tier >/tmp/run_all.$id.out 2>/dev/null </dev/null; rc=$?
+  ./check $id --tier $tier >/tmp/run_all.$tier.$id.out 2>/dev/null </dev/null; rc=$?
   e=$(date +%s)
-  echo "== $id rc=$rc $((e-s))s"; grep -E "VIOLATION|HARNESS|KNOWN|$tier:" /tmp/run_all.$id.out | cut -c1-220 | tail -4
+  echo "== $id rc=$rc $((e-s))s"; grep -E "VIOLATION|HARNESS|KNOWN|$tier:" /tmp/run_all.$tier.$id.out | cut -c1-220 | tail -4
 done
